@@ -65,6 +65,11 @@ def run_translator():
     rp = os.path.join(out, 'gen_report.json')
     if os.path.exists(rp):
         rep['items'] = json.load(open(rp))
+    # the RFC side: descriptors from the .x specification shipped with the go-rpcgen module
+    rc2, mo, me = sh("go list -m -f '{{.Dir}}' github.com/zeldovich/go-rpcgen", cwd=REPO, timeout=120)
+    xfile = os.path.join(mo.strip(), 'rfc1813', 'prot.x')
+    rc3, xo, xe = sh(['python3', os.path.join(V, 'scripts', 'xparse.py'), xfile, os.path.join(out, 'GenRfc.v')], timeout=120)
+    rep['items']['rfc'] = {'ok': rc3 == 0, 'msg': (xe or '')[-300:]}
     for f in sorted(os.listdir(out)):
         if f.endswith('.v'):
             if write_if_changed(os.path.join(V, 'coq', 'Gen', f), open(os.path.join(out, f)).read()):
